@@ -24,6 +24,7 @@ def heavy(r):
     n = r.choice([50, 500, 5000, 20000, 10 ** 6, 10 ** 9])
     k = r.choice([2, 3, 5, 10, 100])
     pats = [
+        "9223372036854775807d6", "i=0; while i<3 { i=i+1; 9223372036854775807d6 }", "p(9223372036854775807)", "b9223372036854775807", "4611686018427387904d2 + 4611686018427387904d2",
         f"{n}d6", f"{n}d{k}k1", f"i=0; while i<{n} {{ i=i+1 }}; i", f"b{n}", f"p{n}", f"{min(n, 20000)}a{k}", f"{min(n, 20000)}c{k}", f"1a2m{n}", f"2c2m{n}",
         f"{min(n, 20000)}a{k}m{n}", f"func r(x){{ r(x+1) }}; r(0)", f"func r(x){{ r(x+1) + r(x+2) }}; r(0)", f"&c = {n}d6; c + c + c",
         f"&c = {min(n, 5000)}d6; func g(){{ c }}; i=0; while i<{n} {{ i=i+1; g() }}; i",
@@ -110,7 +111,7 @@ def main(tier):
                 cases.append((adversarial(r), "wcfd" + mode, lim, "adversarial"))
         lines = []
         for src, cfg, lim, kind in cases:
-            if lim == 0 and ("M" in cfg.split(",")[1:] or kind == "heavy"):
+            if lim == 0 and ("M" in cfg.split(",")[1:] or kind in ("heavy", "adversarial")):
                 lim = 30000  # without a budget nothing bounds the work (and max-mode exploding dice never stop: C01 known finding)
             lines.append((f"meter {cfg},L{lim} {r.getrandbits(128):032x} {hx(src)}" if lim else f"meter {cfg} {r.getrandbits(128):032x} {hx(src)}", lim))
         out = run.go_only("meter", [l for l, _ in lines], go_timeout=1200, line_timeout=30)
